@@ -569,6 +569,56 @@ def settleCommitmentsOps (ins outs : List (Addr × Coins)) (rs : List (Option Ad
   ins.map (fun p => Op.releaseHold p.1 p.2) ++ [doTransferOp ins outs rs] ++
     outs.map (fun p => Op.addHold {} p.1 p.2)
 
+/-! ### the other modules' routes to the bank keeper
+
+Each route is the list of bank primitives the Go function calls after its own (permission,
+status, blocked-address) checks, in the Go order, with the context it builds.  `r` / `rs` are the
+outcomes of the send-restriction calls (`none` = error, `some a` = deliver to `a`). -/
+
+/-- x/marker/keeper/marker.go:169 `WithdrawCoins`:
+`SendCoins(types.WithBypass(ctx), m.GetAddress(), recipient, coins)` (:202). -/
+def markerWithdrawOps (marker recipient : Addr) (coins : Coins) (r : Option Addr) : List Op :=
+  [.send { markerBypass := true } marker recipient coins r]
+
+/-- x/marker/keeper/marker.go:624 `TransferCoin` (brokered / forced transfer by an admin):
+`SendCoins(types.WithBypass(ctx), from, to, sdk.NewCoins(amount))` (:673); `amt` is that
+`sdk.NewCoins(amount)`. -/
+def markerTransferOps (src dst : Addr) (amt : Coins) (r : Option Addr) : List Op :=
+  [.send { markerBypass := true } src dst amt r]
+
+/-- x/marker/keeper/marker.go:254 `BurnCoin` on an active marker → `DecreaseSupply` :369 →
+`AdjustCirculation` :303 (`ctx = types.WithBypass(ctx)` :310), burn branch:
+`SendCoinsFromAccountToModule(marker, coin pool, [offset])` (:329) then
+`BurnCoins(coin pool, [offset])` (:335). -/
+def markerBurnOps (marker pool : Addr) (offset : Coins) (r : Option Addr) : List Op :=
+  [.send { markerBypass := true } marker pool offset r, .burn { markerBypass := true } pool offset]
+
+/-- forked SDK x/bank/keeper/keeper.go:392 `BurnCoins(module, amounts)` called directly by a module
+(staking burns from the bonded / not-bonded pool when slashing; x/metadata/keeper/scope.go:286). -/
+def moduleBurnOps (mod : Addr) (amt : Coins) : List Op := [.burn {} mod amt]
+
+/-- forked SDK x/gov/keeper/deposit.go:63 `AddDeposit` (gov `MsgDeposit`, and the initial deposit of
+`MsgSubmitProposal`): `SendCoinsFromAccountToModule(depositor, gov, depositAmount)` (:123) →
+`SendCoins` in the message's own context (keeper.go:303). -/
+def govDepositOps (depositor gov : Addr) (amt : Coins) (r : Option Addr) : List Op :=
+  [.send {} depositor gov amt r]
+
+/-- x/exchange/keeper/market.go:1543 `WithdrawMarketFunds`:
+`SendCoins(xferCtx, marketAddr, toAddr, amount)` (:1556) where `xferCtx` carries
+`quarantine.WithBypass` only when the recipient is the withdrawing admin (:1553);
+`markertypes.WithTransferAgents` only feeds the marker send restriction. -/
+def marketWithdrawOps (market dst : Addr) (amt : Coins) (toIsAdmin : Bool) (r : Option Addr) : List Op :=
+  [.send { quarantineBypass := toIsAdmin } market dst amt r]
+
+/-- x/quarantine/keeper/keeper.go:284 `AcceptQuarantinedFunds`: for every fully accepted record
+`SendCoins(quarantine.WithBypass(ctx), fundsHolder, toAddr, record.Coins)` (:289), in the order
+of the records; `rs` = the restriction outcomes, one per record. -/
+def quarantineAcceptOps (holder dst : Addr) : List Coins → List (Option Addr) → List Op
+  | [], _ => []
+  | cs :: rest, rs =>
+    .send { quarantineBypass := true } holder dst cs (rs.headD (some dst)) ::
+      quarantineAcceptOps holder dst rest (rs.drop 1)
+
 /-! ### a transaction: the fee-payment route
 
 `internal/antewrapper/provenance_fee.go` `checkDeductBaseFee` :76 deducts the base fee (floor gas
